@@ -10,9 +10,14 @@ Part 1  The *erased lexer*: a counter-free copy of every lexer function (`skipAl
         (`tokens_pos_indep`) is a corollary.
 Part 2  The skipping phase absorbs separators: `Skips inp rest → skipAllE inp = skipAllE rest`
         (`skipAllE_of_skips`); hence `nextE_of_skips`.
-Part 3  Lexemes and layouts: `LexemeAt`, `Sep`, `render`, `lexAllE_layout`.
-Part 4  `LexemeAt` for punctuation, operators (with the `needsSep` side condition), identifiers /
-        keywords, decimal and hexadecimal numbers, and single-part strings.
+Part 3  Lexemes and layouts: `LexemeAt`, `Lexeme`, `Sep`, `SepLast`, `render`, `LayoutOK`,
+        `lexAllE_layout` (canonical form of an admissible layout).
+Part 4  `LexemeAt` for punctuation, one- and two-character operators, identifiers / keywords,
+        decimal, negative and hexadecimal numbers and raw strings, each with its `needsSep` side
+        condition (`okAny`, `okNoEq`, `okIdent`, `okNum`, `okHex`); `ok_of_sepStart`: a continuation
+        starting with a separator character is admissible for all of them.  (Multi-part) string
+        literals and the `name"…"` pair are in `PoryProofs/LexString.lean` (`okStr`).
+Nothing is partial.
 -/
 namespace Pory.C19b
 open Pory
@@ -297,61 +302,654 @@ theorem strTok_e (inp : List Char) (p : Pos) : eraseOut (strTok ⟨inp, p⟩) = 
   have := readStringToken_e ⟨inp, p⟩
   simp only [eraseOut, strTok, strE, List.map_cons, List.map_nil, this.1, this.2]
 
+theorem rawP_eq : rawP = fun c => c != '`' && c != NUL := rfl
+theorem identP_eq : identP = fun c => isLetter c || isDigit c := rfl
+
 theorem rawTok_e (inp : List Char) (p : Pos) : eraseOut (rawTok ⟨inp, p⟩) = rawE inp := by
-  simp only [rawTok, rawBody_eq]
-  have h1 := readWhile_fst rawP (readChar ⟨inp, p⟩).inp (readChar ⟨inp, p⟩).p
-  have h2 := readWhile_inp rawP (readChar ⟨inp, p⟩).inp (readChar ⟨inp, p⟩).p
-  rw [readChar_inp] at h1 h2
-  simp only [eraseOut, rawE, erase, List.map_cons, List.map_nil, readChar_inp]
-  rw [← h1, ← h2]
-  rfl
+  simp only [rawTok, rawBody_eq, eraseOut, rawE, erase, List.map_cons, List.map_nil, readWhile_fst,
+    readWhile_inp, readChar_inp, rawP_eq]
 
 theorem hexTok_e (inp : List Char) (p : Pos) : eraseOut (hexTok ⟨inp, p⟩) = hexE inp := by
-  simp only [hexTok, readHexNumber_eq]
-  have h1 := readWhile_fst isHexDigit (readChar (readChar ⟨inp, p⟩)).inp (readChar (readChar ⟨inp, p⟩)).p
-  have h2 := readWhile_inp isHexDigit (readChar (readChar ⟨inp, p⟩)).inp (readChar (readChar ⟨inp, p⟩)).p
-  rw [readChar_inp, readChar_inp] at h1 h2
-  simp only [eraseOut, hexE, erase, List.map_cons, List.map_nil]
-  rw [← h1, ← h2]
+  simp only [hexTok, readHexNumber_eq, eraseOut, hexE, erase, List.map_cons, List.map_nil,
+    readWhile_fst, readWhile_inp, readChar_inp]
 
 theorem zeroTok_e (inp : List Char) (p : Pos) : eraseOut (zeroTok ⟨inp, p⟩) = numE inp := by
-  simp only [zeroTok, readNumber_eq]
-  have h1 := readWhile_fst isDigit inp p
-  have h2 := readWhile_inp isDigit inp p
-  simp only [eraseOut, numE, erase, List.map_cons, List.map_nil]
-  rw [← h1, ← h2]
+  simp only [zeroTok, readNumber_eq, eraseOut, numE, erase, List.map_cons, List.map_nil,
+    readWhile_fst, readWhile_inp]
 
 theorem numTok_e (inp : List Char) (p : Pos) : eraseOut (numTok ⟨inp, p⟩) = numE inp := by
-  simp only [numTok, readNumber_eq]
-  have h1 := readWhile_fst isDigit inp p
-  have h2 := readWhile_inp isDigit inp p
-  simp only [eraseOut, numE, erase, List.map_cons, List.map_nil]
-  rw [← h1, ← h2]
+  simp only [numTok, readNumber_eq, eraseOut, numE, erase, List.map_cons, List.map_nil,
+    readWhile_fst, readWhile_inp]
 
 theorem negTok_e (inp : List Char) (p : Pos) : eraseOut (negTok ⟨inp, p⟩) = negE inp := by
-  simp only [negTok, readNumber_eq]
-  have h1 := readWhile_fst isDigit (readChar ⟨inp, p⟩).inp (readChar ⟨inp, p⟩).p
-  have h2 := readWhile_inp isDigit (readChar ⟨inp, p⟩).inp (readChar ⟨inp, p⟩).p
-  rw [readChar_inp] at h1 h2
-  simp only [eraseOut, negE, erase, List.map_cons, List.map_nil]
-  rw [← h1, ← h2]
+  simp only [negTok, readNumber_eq, eraseOut, negE, erase, List.map_cons, List.map_nil,
+    readWhile_fst, readWhile_inp, readChar_inp]
 
 theorem identTok_e (inp : List Char) (p : Pos) (c : Char) :
     eraseOut (identTok ⟨inp, p⟩ c) = identE inp c := by
-  simp only [identTok, readIdentRest_eq]
-  have h1 := readWhile_fst identP (readChar ⟨inp, p⟩).inp (readChar ⟨inp, p⟩).p
-  have h2 := readWhile_inp identP (readChar ⟨inp, p⟩).inp (readChar ⟨inp, p⟩).p
-  rw [readChar_inp] at h1 h2
-  simp only [identE]
-  rw [← h1, ← h2]
-  have h3 := readStringToken_e (readWhile identP (readChar ⟨inp, p⟩).inp (readChar ⟨inp, p⟩).p).2
-  split
-  · next hq =>
-    rw [if_pos hq]
-    simp only [eraseOut, List.map_cons, List.map_nil, h3.1, h3.2]
+  simp only [identTok, readIdentRest_eq, identE, identP_eq]
+  have h3 := readStringToken_e
+    (readWhile (fun c => isLetter c || isDigit c) (readChar ⟨inp, p⟩).inp (readChar ⟨inp, p⟩).p).2
+  simp only [readWhile_inp, readChar_inp] at h3
+  by_cases hq : (ch (List.dropWhile (fun c => isLetter c || isDigit c) inp.tail) == '"') = true
+  · simp only [readWhile_inp, readWhile_fst, readChar_inp, hq, if_true, eraseOut, List.map_cons,
+      List.map_nil, h3.1, h3.2]
     rfl
-  · next hq =>
-    rw [if_neg hq]
+  · simp only [readWhile_inp, readWhile_fst, readChar_inp, hq, Bool.false_eq_true, if_false,
+      eraseOut, List.map_cons, List.map_nil]
     rfl
+
+theorem tokenAt_e (inp : List Char) (p : Pos) (c : Char) :
+    eraseOut (tokenAt ⟨inp, p⟩ c) = tokenAtE inp c := by
+  simp only [tokenAt, tokenAtE, apply_ite eraseOut, oneTok_e, twoTok_e, illTok_e, nulTok_e, strTok_e,
+    rawTok_e, hexTok_e, zeroTok_e, numTok_e, negTok_e, identTok_e]
+
+/-- **The model computes the erased lexer**: types, literals, remaining input and `done` flag of
+one `nextToken` call are a function of the input characters alone. -/
+theorem nextToken_erased (inp : List Char) (p : Pos) : eraseOut (nextToken ⟨inp, p⟩) = nextE inp := by
+  rw [nextToken_eq, nextE]
+  have h := skipAll_inp ⟨inp, p⟩
+  generalize skipAll ⟨inp, p⟩ = sk at h
+  obtain ⟨i, q⟩ := sk
+  simp only at h
+  rw [← h]
+  cases i with
+  | nil => rfl
+  | cons c r => exact tokenAt_e (c :: r) q c
+
+theorem lexLoop_erased (n : Nat) (inp : List Char) (p : Pos) :
+    (lexLoop n ⟨inp, p⟩).map erase = lexLoopE n inp := by
+  induction n generalizing inp p with
+  | zero => rfl
+  | succ n ih =>
+    have h := nextToken_erased inp p
+    have h1 : (nextToken ⟨inp, p⟩).1.map erase = (nextE inp).1 := congrArg (·.1) h
+    have h2 : (nextToken ⟨inp, p⟩).2.1.inp = (nextE inp).2.1 := congrArg (·.2.1) h
+    have h3 : (nextToken ⟨inp, p⟩).2.2 = (nextE inp).2.2 := congrArg (·.2.2) h
+    simp only [lexLoop, lexLoopE]
+    rw [← h1, ← h2, ← h3]
+    cases hd : (nextToken ⟨inp, p⟩).2.2
+    · simp [ih]
+    · simp
+
+theorem lexAll_erased (inp : List Char) : (lexAll inp).map erase = lexAllE inp :=
+  lexLoop_erased _ _ _
+
+/-- **Position independence** of one `nextToken` call: the same input with any two sets of
+counters gives the same types and literals, the same remaining input and the same `done` flag. -/
+theorem tokens_pos_indep (inp : List Char) (p p' : Pos) :
+    (nextToken ⟨inp, p⟩).1.map erase = (nextToken ⟨inp, p'⟩).1.map erase ∧
+    (nextToken ⟨inp, p⟩).2.1.inp = (nextToken ⟨inp, p'⟩).2.1.inp ∧
+    (nextToken ⟨inp, p⟩).2.2 = (nextToken ⟨inp, p'⟩).2.2 := by
+  have h := (nextToken_erased inp p).trans (nextToken_erased inp p').symm
+  exact ⟨congrArg (·.1) h, congrArg (·.2.1) h, congrArg (·.2.2) h⟩
+
+/-! ## Part 2: the skipping phase absorbs separators -/
+
+theorem dropWhile_length_le (P : Char → Bool) (l : List Char) : (l.dropWhile P).length ≤ l.length := by
+  induction l with
+  | nil => simp
+  | cons c r ih =>
+    rw [List.dropWhile_cons]
+    split
+    · exact Nat.le_trans ih (by simp)
+    · simp
+
+theorem skipLineE_length (inp : List Char) : (skipLineE inp).length ≤ inp.length - 1 := by
+  induction inp with
+  | nil => simp [skipLineE]
+  | cons c r ih =>
+    rw [skipLineE]
+    split
+    · exact Nat.le_trans ih (by simp)
+    · simp
+
+theorem skipCommentsE_fuel (n m : Nat) (inp : List Char) (hn : inp.length < n) (hm : inp.length < m) :
+    skipCommentsE n inp = skipCommentsE m inp := by
+  induction n generalizing m inp with
+  | zero => exact absurd hn (Nat.not_lt_zero _)
+  | succ n ih =>
+    cases m with
+    | zero => exact absurd hm (Nat.not_lt_zero _)
+    | succ m =>
+      rw [skipCommentsE, skipCommentsE]
+      split
+      · next hc =>
+        have hne := isCommentStart_ne_nil hc
+        have hpos : 0 < inp.length := List.length_pos_iff.2 hne
+        have h1 := skipLineE_length inp
+        have h2 := dropWhile_length_le isWs (skipLineE inp)
+        exact ih m _ (by omega) (by omega)
+      · rfl
+
+theorem isCommentStart_not_ws {c : Char} {r : List Char} (h : isCommentStart (c :: r) = true) :
+    isWs c = false := by
+  simp only [isCommentStart, ch, List.headD_cons, Bool.or_eq_true, Bool.and_eq_true, beq_iff_eq] at h
+  rcases h with h | ⟨h, _⟩ <;> subst h <;> decide
+
+/-- At a comment start, the skipping phase is the skipping phase after the comment line. -/
+theorem skipAllE_comment (inp : List Char) (h : isCommentStart inp = true) :
+    skipAllE inp = skipAllE (skipLineE inp) := by
+  cases inp with
+  | nil => exact absurd h (by decide)
+  | cons c r =>
+    have hw := isCommentStart_not_ws h
+    have hd : (c :: r).dropWhile isWs = c :: r := by rw [List.dropWhile_cons, hw]; rfl
+    rw [skipAllE, hd, skipCommentsE, if_pos h, skipAllE]
+    have h1 := skipLineE_length (c :: r)
+    have h2 := dropWhile_length_le isWs (skipLineE (c :: r))
+    simp only [List.length_cons] at h1 ⊢
+    exact skipCommentsE_fuel _ _ _ (by omega) (by omega)
+
+theorem skipAllE_ws (c : Char) (r : List Char) (h : isWs c = true) : skipAllE (c :: r) = skipAllE r := by
+  rw [skipAllE, List.dropWhile_cons, if_pos h, skipAllE]
+
+theorem skipLineE_comment (body : List Char) (d : Char) (next : List Char)
+    (hb : ∀ c ∈ body, c ≠ '\n' ∧ c ≠ NUL) (hd : d = '\n' ∨ d = NUL) :
+    skipLineE (body ++ d :: next) = next := by
+  induction body with
+  | nil =>
+    rw [List.nil_append, skipLineE, if_neg]
+    rcases hd with rfl | rfl <;> decide
+  | cons c body ih =>
+    have := hb c (List.mem_cons_self ..)
+    rw [List.cons_append, skipLineE, if_pos (by simpa using this)]
+    exact ih fun x hx => hb x (List.mem_cons_of_mem _ hx)
+
+theorem skipLineE_body (body : List Char) (hb : ∀ c ∈ body, c ≠ '\n' ∧ c ≠ NUL) :
+    skipLineE body = [] := by
+  induction body with
+  | nil => rfl
+  | cons c body ih =>
+    have := hb c (List.mem_cons_self ..)
+    rw [skipLineE, if_pos (by simpa using this)]
+    exact ih fun x hx => hb x (List.mem_cons_of_mem _ hx)
+
+/-- Removing leading whitespace and comments does not change where the skipping phase stops. -/
+theorem skipAllE_of_skips {inp rest : List Char} (h : Skips inp rest) : skipAllE inp = skipAllE rest := by
+  induction h with
+  | done => rfl
+  | ws c r rest hw _ ih => rw [skipAllE_ws c r hw, ih]
+  | comment body d next rest hs hb hd _ ih => rw [skipAllE_comment _ hs, skipLineE_comment body d next hb hd, ih]
+  | commentEnd body hs hb => rw [skipAllE_comment _ hs, skipLineE_body body hb]
+
+theorem nextE_of_skips {inp rest : List Char} (h : Skips inp rest) : nextE inp = nextE rest := by
+  rw [nextE, nextE, skipAllE_of_skips h]
+
+/-- The skipping phase is idempotent. -/
+theorem skipAllE_idem (inp : List Char) : skipAllE (skipAllE inp) = skipAllE inp := by
+  have := skipAll_skips ⟨inp, default⟩
+  rw [skipAll_inp] at this
+  exact (skipAllE_of_skips this).symm
+
+/-- Nothing is skipped in front of a character that is neither whitespace nor a comment start. -/
+theorem skipAllE_stop (inp : List Char) (hw : ∀ c ∈ inp.head?, isWs c = false)
+    (hc : isCommentStart inp = false) : skipAllE inp = inp := by
+  have hd : inp.dropWhile isWs = inp := by
+    cases inp with
+    | nil => rfl
+    | cons c r => rw [List.dropWhile_cons, if_neg (by simp [hw c (by simp)])]
+  rw [skipAllE, hd, skipCommentsE, if_neg (by simp [hc])]
+
+theorem nextE_stop (c : Char) (r : List Char) (hw : isWs c = false)
+    (hc : isCommentStart (c :: r) = false) : nextE (c :: r) = tokenAtE (c :: r) c := by
+  rw [nextE, skipAllE_stop _ (by simpa using hw) hc, tokE]
+
+/-! ## Part 3: lexemes, separators, layouts -/
+
+/-- `LexemeAt ok lex toks`: the non-empty string `lex` is read by one `nextToken` call as the
+(type, literal) sequence `toks`, whatever admissible text `tail` follows it (`ok tail` — the
+`needsSep` side condition of the lexeme class), and the call stops at `tail` or, for string
+literals, after some whitespace of `tail` (`Skips tail tail'`). -/
+def LexemeAt (ok : List Char → Prop) (lex : List Char) (toks : List (TT × String)) : Prop :=
+  lex ≠ [] ∧ ∀ tail, ok tail → ∃ tail', nextE (lex ++ tail) = (toks, tail', false) ∧ Skips tail tail'
+
+/-- A lexeme: its characters, the tokens it is read as, and which continuations may follow it
+directly (`ok`; every continuation that starts with a separator character is allowed for the
+classes proved in Part 4, so `ok` only matters where two lexemes touch). -/
+structure Lexeme where
+  chars : List Char
+  toks : List (TT × String)
+  ok : List Char → Prop
+  spec : LexemeAt ok chars toks
+
+/-- A separator: a (possibly empty) run of whitespace and complete comments (`#…` or `//…` up to
+and including the next newline or NUL). -/
+inductive Sep : List Char → Prop
+  | nil : Sep []
+  | ws (c : Char) (r : List Char) : isWs c = true → Sep r → Sep (c :: r)
+  | comment (body : List Char) (d : Char) (r : List Char) : isCommentStart body = true →
+      (∀ c ∈ body, c ≠ '\n' ∧ c ≠ NUL) → (d = '\n' ∨ d = NUL) → Sep r → Sep (body ++ d :: r)
+
+/-- The last separator of a source may end in an unterminated comment. -/
+inductive SepLast : List Char → Prop
+  | sep (s : List Char) : Sep s → SepLast s
+  | ws (c : Char) (r : List Char) : isWs c = true → SepLast r → SepLast (c :: r)
+  | comment (body : List Char) (d : Char) (r : List Char) : isCommentStart body = true →
+      (∀ c ∈ body, c ≠ '\n' ∧ c ≠ NUL) → (d = '\n' ∨ d = NUL) → SepLast r → SepLast (body ++ d :: r)
+  | open_ (body : List Char) : isCommentStart body = true → (∀ c ∈ body, c ≠ '\n' ∧ c ≠ NUL) →
+      SepLast body
+
+theorem isCommentStart_append {body : List Char} (h : isCommentStart body = true) (x : List Char) :
+    isCommentStart (body ++ x) = true := by
+  cases body with
+  | nil => exact absurd h (by decide)
+  | cons a b =>
+    cases b with
+    | nil =>
+      have ha : a = '#' := by
+        simp only [isCommentStart, ch, List.headD_cons, peekChar, Bool.or_eq_true, beq_iff_eq,
+          Bool.and_eq_true] at h
+        rcases h with h | ⟨_, h⟩
+        · exact h
+        · exact absurd h (by decide)
+      subst ha
+      rfl
+    | cons b c => simpa [isCommentStart, ch, peekChar] using h
+
+theorem Sep.skips {s : List Char} (h : Sep s) (rest : List Char) : Skips (s ++ rest) rest := by
+  induction h with
+  | nil => exact .done _
+  | ws c r hw _ ih => exact .ws c _ _ hw ih
+  | comment body d r hs hb hd _ ih =>
+    have : (body ++ d :: r) ++ rest = body ++ d :: (r ++ rest) := by simp
+    rw [this]
+    refine .comment body d _ _ ?_ hb hd ih
+    have := isCommentStart_append hs (d :: (r ++ rest))
+    exact this
+
+theorem SepLast.skips {s : List Char} (h : SepLast s) : Skips s [] := by
+  induction h with
+  | sep s hs => simpa using hs.skips []
+  | ws c r hw _ ih => exact .ws c _ _ hw ih
+  | comment body d r hs hb hd _ ih => exact .comment body d _ _ (isCommentStart_append hs _) hb hd ih
+  | open_ body hs hb => exact .commentEnd body hs hb
+
+/-- The text of a layout: lexemes, each followed by its separator. -/
+def body : List (Lexeme × List Char) → List Char
+  | [] => []
+  | (l, sep) :: r => l.chars ++ (sep ++ body r)
+
+/-- A source: leading separator, then the lexemes with their separators. -/
+def render (sep0 : List Char) (L : List (Lexeme × List Char)) : List Char := sep0 ++ body L
+
+/-- A layout is admissible when every `sep` really is a separator in its context (whitespace and
+comments, each comment closed by a newline unless it is the very end of the source) and what
+follows each lexeme is an admissible continuation for it (`needsSep`). -/
+def LayoutOK : List (Lexeme × List Char) → Prop
+  | [] => True
+  | (l, sep) :: r => Skips (sep ++ body r) (body r) ∧ l.ok (sep ++ body r) ∧ LayoutOK r
+
+theorem body_length (L : List (Lexeme × List Char)) : L.length ≤ (body L).length := by
+  induction L with
+  | nil => simp
+  | cons a r ih =>
+    obtain ⟨l, sep⟩ := a
+    have := List.length_pos_iff.2 l.spec.1
+    simp only [body, List.length_cons, List.length_append]
+    omega
+
+theorem nextE_congr {a b : List Char} (h : skipAllE a = skipAllE b) : nextE a = nextE b := by
+  rw [nextE, nextE, h]
+
+theorem lexLoopE_layout (L : List (Lexeme × List Char)) (hok : LayoutOK L) (n : Nat)
+    (hn : L.length < n) (inp : List Char) (hinp : skipAllE inp = skipAllE (body L)) :
+    lexLoopE n inp = L.flatMap (·.1.toks) ++ [(.EOF, "")] := by
+  induction L generalizing n inp with
+  | nil =>
+    cases n with
+    | zero => exact absurd hn (Nat.not_lt_zero _)
+    | succ n =>
+      have h : nextE inp = ([(.EOF, "")], [], true) := by rw [nextE, hinp]; rfl
+      simp [lexLoopE, h]
+  | cons a r ih =>
+    obtain ⟨l, sep⟩ := a
+    cases n with
+    | zero => exact absurd hn (Nat.not_lt_zero _)
+    | succ n =>
+      obtain ⟨hs, hl, hr⟩ := hok
+      obtain ⟨tail', h1, h2⟩ := l.spec.2 _ hl
+      have h : nextE inp = (l.toks, tail', false) := by rw [nextE_congr hinp]; exact h1
+      have h3 : skipAllE tail' = skipAllE (body r) :=
+        (skipAllE_of_skips h2).symm.trans (skipAllE_of_skips hs)
+      simp only [lexLoopE, h, Bool.false_eq_true, if_false, List.flatMap_cons]
+      rw [ih hr n (by simpa using hn) tail' h3, List.append_assoc]
+
+/-- **Canonical form**: the erased tokens of an admissible layout are the tokens of its lexemes,
+in order, followed by `EOF` — the separators do not appear. -/
+theorem lexAllE_layout (sep0 : List Char) (L : List (Lexeme × List Char))
+    (h0 : Skips (sep0 ++ body L) (body L)) (hok : LayoutOK L) :
+    lexAllE (render sep0 L) = L.flatMap (·.1.toks) ++ [(.EOF, "")] := by
+  have := body_length L
+  refine lexLoopE_layout L hok _ ?_ _ (skipAllE_of_skips h0)
+  simp only [render, List.length_append]
+  omega
+
+/-! ## Part 4: `LexemeAt` for the main token classes -/
+
+theorem takeWhile_app_stop (P : Char → Bool) (l rest : List Char) (h : ∀ x ∈ l, P x = true)
+    (hr : ∀ x ∈ rest.head?, P x = false) : (l ++ rest).takeWhile P = l := by
+  induction l with
+  | nil =>
+    cases rest with
+    | nil => rfl
+    | cons d r => rw [List.nil_append, List.takeWhile_cons, if_neg (by simp [hr d (by simp)])]
+  | cons c l ih =>
+    rw [List.cons_append, List.takeWhile_cons, if_pos (h c (List.mem_cons_self ..)),
+      ih fun x hx => h x (List.mem_cons_of_mem _ hx)]
+
+theorem dropWhile_app_stop (P : Char → Bool) (l rest : List Char) (h : ∀ x ∈ l, P x = true)
+    (hr : ∀ x ∈ rest.head?, P x = false) : (l ++ rest).dropWhile P = rest := by
+  induction l with
+  | nil =>
+    cases rest with
+    | nil => rfl
+    | cons d r => rw [List.nil_append, List.dropWhile_cons, if_neg (by simp [hr d (by simp)])]
+  | cons c l ih =>
+    rw [List.cons_append, List.dropWhile_cons, if_pos (h c (List.mem_cons_self ..))]
+    exact ih fun x hx => h x (List.mem_cons_of_mem _ hx)
+
+/-- the characters the `switch` of `NextToken` tests for, whitespace and comment starts -/
+def special : List Char :=
+  ['*', '=', '!', '<', '>', '&', '|', '(', ')', '[', ']', ',', ':', '"', '`', '{', '}', '0', NUL,
+    ' ', '\t', '\n', '\r', '#', '/', '-', 'x', RuneError]
+
+theorem special_not_letter' : ∀ x ∈ special.erase 'x', isLetter x = false := by
+  simp only [isLetter, inRanges_list]
+  decide +kernel
+
+theorem special_not_digit : ∀ x ∈ special.erase '0', isDigit x = false := by
+  simp only [isDigit, inRanges_list]
+  decide +kernel
+
+theorem letter_ne_special {c : Char} (hl : isLetter c = true) : ∀ x ∈ special.erase 'x', c ≠ x := by
+  intro x hx e
+  subst e
+  rw [special_not_letter' c hx] at hl
+  exact absurd hl (by decide)
+
+theorem digit_ne_special {c : Char} (hd : isDigit c = true) : ∀ x ∈ special.erase '0', c ≠ x := by
+  intro x hx e
+  subst e
+  rw [special_not_digit c hx] at hd
+  exact absurd hd (by decide)
+
+theorem beq_false_of_ne' {c x : Char} (h : c ≠ x) : (c == x) = false := by simpa using h
+
+/-- A letter goes to the identifier branch. -/
+theorem tokenAtE_letter (inp : List Char) (c : Char) (hl : isLetter c = true) :
+    tokenAtE inp c = identE inp c := by
+  have hne := letter_ne_special hl
+  have h0 : (c == '*') = false := beq_false_of_ne' (hne '*' (by decide))
+  have h1 : (c == '=') = false := beq_false_of_ne' (hne '=' (by decide))
+  have h2 : (c == '!') = false := beq_false_of_ne' (hne '!' (by decide))
+  have h3 : (c == '<') = false := beq_false_of_ne' (hne '<' (by decide))
+  have h4 : (c == '>') = false := beq_false_of_ne' (hne '>' (by decide))
+  have h5 : (c == '&') = false := beq_false_of_ne' (hne '&' (by decide))
+  have h6 : (c == '|') = false := beq_false_of_ne' (hne '|' (by decide))
+  have h7 : (c == '(') = false := beq_false_of_ne' (hne '(' (by decide))
+  have h8 : (c == ')') = false := beq_false_of_ne' (hne ')' (by decide))
+  have h9 : (c == '[') = false := beq_false_of_ne' (hne '[' (by decide))
+  have h10 : (c == ']') = false := beq_false_of_ne' (hne ']' (by decide))
+  have h11 : (c == ',') = false := beq_false_of_ne' (hne ',' (by decide))
+  have h12 : (c == ':') = false := beq_false_of_ne' (hne ':' (by decide))
+  have h13 : (c == '"') = false := beq_false_of_ne' (hne '"' (by decide))
+  have h14 : (c == '`') = false := beq_false_of_ne' (hne '`' (by decide))
+  have h15 : (c == '{') = false := beq_false_of_ne' (hne '{' (by decide))
+  have h16 : (c == '}') = false := beq_false_of_ne' (hne '}' (by decide))
+  have h17 : (c == '0') = false := beq_false_of_ne' (hne '0' (by decide))
+  have h18 : (c == NUL) = false := beq_false_of_ne' (hne NUL (by decide))
+  simp only [tokenAtE, h0, h1, h2, h3, h4, h5, h6, h7, h8, h9, h10, h11, h12, h13, h14, h15, h16, h17, h18, hl, Bool.false_eq_true, if_false, if_true]
+
+/-- A digit other than `0` (that is not also a letter) goes to the plain number branch. -/
+theorem tokenAtE_digit (inp : List Char) (c : Char) (hd : isDigit c = true) (hl : isLetter c = false)
+    (hz : c ≠ '0') : tokenAtE inp c = numE inp := by
+  have hne := digit_ne_special hd
+  have h0 : (c == '*') = false := beq_false_of_ne' (hne '*' (by decide))
+  have h1 : (c == '=') = false := beq_false_of_ne' (hne '=' (by decide))
+  have h2 : (c == '!') = false := beq_false_of_ne' (hne '!' (by decide))
+  have h3 : (c == '<') = false := beq_false_of_ne' (hne '<' (by decide))
+  have h4 : (c == '>') = false := beq_false_of_ne' (hne '>' (by decide))
+  have h5 : (c == '&') = false := beq_false_of_ne' (hne '&' (by decide))
+  have h6 : (c == '|') = false := beq_false_of_ne' (hne '|' (by decide))
+  have h7 : (c == '(') = false := beq_false_of_ne' (hne '(' (by decide))
+  have h8 : (c == ')') = false := beq_false_of_ne' (hne ')' (by decide))
+  have h9 : (c == '[') = false := beq_false_of_ne' (hne '[' (by decide))
+  have h10 : (c == ']') = false := beq_false_of_ne' (hne ']' (by decide))
+  have h11 : (c == ',') = false := beq_false_of_ne' (hne ',' (by decide))
+  have h12 : (c == ':') = false := beq_false_of_ne' (hne ':' (by decide))
+  have h13 : (c == '"') = false := beq_false_of_ne' (hne '"' (by decide))
+  have h14 : (c == '`') = false := beq_false_of_ne' (hne '`' (by decide))
+  have h15 : (c == '{') = false := beq_false_of_ne' (hne '{' (by decide))
+  have h16 : (c == '}') = false := beq_false_of_ne' (hne '}' (by decide))
+  have h18 : (c == NUL) = false := beq_false_of_ne' (hne NUL (by decide))
+  have h17 : (c == '0') = false := beq_false_of_ne' hz
+  have hm : (c == '-') = false := beq_false_of_ne' (hne '-' (by decide))
+  simp only [tokenAtE, h0, h1, h2, h3, h4, h5, h6, h7, h8, h9, h10, h11, h12, h13, h14, h15, h16, h18, h17, hm, hl, hd, Bool.false_eq_true, if_false, if_true, Bool.true_or]
+
+theorem nextE_letter (c : Char) (r : List Char) (hl : isLetter c = true) :
+    nextE (c :: r) = identE (c :: r) c := by
+  have hne := letter_ne_special hl
+  have hw : isWs c = false := by
+    simp [isWs, hne ' ' (by decide), hne '\t' (by decide), hne '\n' (by decide),
+      hne '\r' (by decide)]
+  have hc : isCommentStart (c :: r) = false := by
+    simp [isCommentStart, ch, hne '#' (by decide), hne '/' (by decide)]
+  rw [nextE_stop c r hw hc, tokenAtE_letter _ _ hl]
+
+theorem nextE_digit (c : Char) (r : List Char) (hd : isDigit c = true) (hl : isLetter c = false)
+    (hz : c ≠ '0') : nextE (c :: r) = numE (c :: r) := by
+  have hne := digit_ne_special hd
+  have hw : isWs c = false := by
+    simp [isWs, hne ' ' (by decide), hne '\t' (by decide), hne '\n' (by decide),
+      hne '\r' (by decide)]
+  have hc : isCommentStart (c :: r) = false := by
+    simp [isCommentStart, ch, hne '#' (by decide), hne '/' (by decide)]
+  rw [nextE_stop c r hw hc, tokenAtE_digit _ _ hd hl hz]
+
+theorem peekChar_ne (c : Char) (tail : List Char) (x : Char) (hx : x ≠ NUL)
+    (h : ∀ d ∈ tail.head?, d ≠ x) : (peekChar (c :: tail) == x) = false := by
+  cases tail with
+  | nil => exact beq_false_of_ne' fun e => hx e.symm
+  | cons d r =>
+    simp only [peekChar]
+    split
+    · exact beq_false_of_ne' fun e => hx e.symm
+    · exact beq_false_of_ne' (h d (by simp))
+
+/-- any continuation is admissible (no separator needed after the lexeme) -/
+def okAny : List Char → Prop := fun _ => True
+
+/-- punctuation and `*` -/
+def punct : List (Char × TT) :=
+  [('*', .MUL), ('(', .LPAREN), (')', .RPAREN), ('[', .LBRACKET), (']', .RBRACKET), (',', .COMMA),
+    (':', .COLON), ('{', .LBRACE), ('}', .RBRACE)]
+
+/-- **Punctuation** is a lexeme whatever follows. -/
+theorem lexemeAt_punct (c : Char) (ty : TT) (h : (c, ty) ∈ punct) :
+    LexemeAt okAny [c] [(ty, String.singleton c)] := by
+  refine ⟨by simp, fun tail _ => ⟨tail, ?_, .done _⟩⟩
+  simp only [punct, List.mem_cons, Prod.mk.injEq, List.not_mem_nil, or_false] at h
+  rcases h with ⟨rfl, rfl⟩ | ⟨rfl, rfl⟩ | ⟨rfl, rfl⟩ | ⟨rfl, rfl⟩ | ⟨rfl, rfl⟩ | ⟨rfl, rfl⟩ |
+    ⟨rfl, rfl⟩ | ⟨rfl, rfl⟩ | ⟨rfl, rfl⟩ <;>
+  · rw [List.singleton_append, nextE_stop _ _ (by decide) rfl]
+    simp [tokenAtE, oneE]
+
+/-- `needsSep` for `=`, `!`, `<`, `>`: the continuation must not start with `=` (it would fuse
+into `==`, `!=`, `<=`, `>=`). -/
+def okNoEq (tail : List Char) : Prop := ∀ d ∈ tail.head?, d ≠ '='
+
+def cmp1 : List (Char × TT) := [('=', .ASSIGN), ('!', .NOT), ('<', .LT), ('>', .GT)]
+
+/-- **One-character operators** `= ! < >`, when not followed by `=`. -/
+theorem lexemeAt_cmp1 (c : Char) (ty : TT) (h : (c, ty) ∈ cmp1) :
+    LexemeAt okNoEq [c] [(ty, String.singleton c)] := by
+  refine ⟨by simp, fun tail ht => ⟨tail, ?_, .done _⟩⟩
+  have hp := peekChar_ne c tail '=' (by decide) ht
+  simp only [cmp1, List.mem_cons, Prod.mk.injEq, List.not_mem_nil, or_false] at h
+  rcases h with ⟨rfl, rfl⟩ | ⟨rfl, rfl⟩ | ⟨rfl, rfl⟩ | ⟨rfl, rfl⟩ <;>
+  · rw [List.singleton_append, nextE_stop _ _ (by decide) rfl]
+    simp [tokenAtE, oneE, hp]
+
+def ops2 : List (Char × Char × TT) :=
+  [('=', '=', .EQ), ('!', '=', .NEQ), ('<', '=', .LTE), ('>', '=', .GTE), ('&', '&', .AND),
+    ('|', '|', .OR)]
+
+/-- **Two-character operators** are lexemes whatever follows. -/
+theorem lexemeAt_ops2 (c d : Char) (ty : TT) (h : (c, d, ty) ∈ ops2) :
+    LexemeAt okAny [c, d] [(ty, String.ofList [c, d])] := by
+  refine ⟨by simp, fun tail _ => ⟨tail, ?_, .done _⟩⟩
+  simp only [ops2, List.mem_cons, Prod.mk.injEq, List.not_mem_nil, or_false] at h
+  rcases h with ⟨rfl, rfl, rfl⟩ | ⟨rfl, rfl, rfl⟩ | ⟨rfl, rfl, rfl⟩ | ⟨rfl, rfl, rfl⟩ |
+    ⟨rfl, rfl, rfl⟩ | ⟨rfl, rfl, rfl⟩ <;>
+  · rw [List.cons_append, nextE_stop _ _ (by decide) rfl]
+    simp [tokenAtE, twoE, peekChar, RuneError, ch]
+
+/-- `needsSep` for identifiers and keywords: the continuation must not start with a letter or
+digit (it would extend the identifier) nor with `"` (the identifier would become a string type). -/
+def okIdent (tail : List Char) : Prop := ∀ d ∈ tail.head?, identP d = false ∧ d ≠ '"'
+
+/-- **Identifiers and keywords**: a letter followed by letters and digits. -/
+theorem lexemeAt_ident (c : Char) (cs : List Char) (hl : isLetter c = true)
+    (hcs : ∀ x ∈ cs, identP x = true) :
+    LexemeAt okIdent (c :: cs)
+      [(getIdentType (String.ofList (c :: cs)), String.ofList (c :: cs))] := by
+  refine ⟨by simp, fun tail ht => ⟨tail, ?_, .done _⟩⟩
+  have h1 : ∀ x ∈ tail.head?, identP x = false := fun x hx => (ht x hx).1
+  have hq : (ch tail == '"') = false := by
+    cases tail with
+    | nil => decide
+    | cons d r => simpa [ch] using (ht d (by simp)).2
+  rw [List.cons_append, nextE_letter _ _ hl]
+  simp only [identE, List.tail_cons, takeWhile_app_stop identP cs tail hcs h1,
+    dropWhile_app_stop identP cs tail hcs h1, hq, Bool.false_eq_true, if_false]
+
+/-- `needsSep` for decimal numbers: the continuation must not start with a digit, nor with `x`
+(after a lone `0` it would start a hexadecimal number). -/
+def okNum (tail : List Char) : Prop := ∀ d ∈ tail.head?, isDigit d = false ∧ d ≠ 'x'
+
+/-- **Decimal numbers**: a run of digits. -/
+theorem lexemeAt_num (c : Char) (ds : List Char) (hd : isDigit c = true) (hl : isLetter c = false)
+    (hds : ∀ x ∈ ds, isDigit x = true) :
+    LexemeAt okNum (c :: ds) [(.INT, String.ofList (c :: ds))] := by
+  refine ⟨by simp, fun tail ht => ⟨tail, ?_, .done _⟩⟩
+  have hall : ∀ x ∈ c :: ds, isDigit x = true := by
+    intro x hx
+    rcases List.mem_cons.1 hx with rfl | hx
+    · exact hd
+    · exact hds x hx
+  have h1 : ∀ x ∈ tail.head?, isDigit x = false := fun x hx => (ht x hx).1
+  have hnum : numE (c :: (ds ++ tail)) = ([(.INT, String.ofList (c :: ds))], tail, false) := by
+    rw [← List.cons_append, numE, takeWhile_app_stop isDigit _ tail hall h1,
+      dropWhile_app_stop isDigit _ tail hall h1]
+  by_cases hz : c = '0'
+  · subst hz
+    have hx : ∀ d ∈ (ds ++ tail).head?, d ≠ 'x' := by
+      intro d hd'
+      cases ds with
+      | nil => exact (ht d (by simpa using hd')).2
+      | cons e es =>
+        simp only [List.cons_append, List.head?_cons, Option.mem_def, Option.some.injEq] at hd'
+        subst hd'
+        intro ex
+        have := hds e (List.mem_cons_self ..)
+        rw [ex, special_not_digit 'x' (by decide)] at this
+        exact absurd this (by decide)
+    have hp := peekChar_ne '0' (ds ++ tail) 'x' (by decide) hx
+    rw [List.cons_append, nextE_stop _ _ (by decide) rfl]
+    have : tokenAtE ('0' :: (ds ++ tail)) '0' = numE ('0' :: (ds ++ tail)) := by
+      simp [tokenAtE, hp]
+    rw [this, hnum]
+  · rw [List.cons_append, nextE_digit _ _ hd hl hz, hnum]
+
+/-- `needsSep` for hexadecimal numbers: no hexadecimal digit may follow. -/
+def okHex (tail : List Char) : Prop := ∀ d ∈ tail.head?, isHexDigit d = false
+
+/-- **Hexadecimal numbers** `0x…`. -/
+theorem lexemeAt_hex (hs : List Char) (h : ∀ x ∈ hs, isHexDigit x = true) :
+    LexemeAt okHex ('0' :: 'x' :: hs) [(.INT, String.ofList ('0' :: 'x' :: hs))] := by
+  refine ⟨by simp, fun tail ht => ⟨tail, ?_, .done _⟩⟩
+  rw [List.cons_append, List.cons_append, nextE_stop _ _ (by decide) rfl]
+  have : tokenAtE ('0' :: 'x' :: (hs ++ tail)) '0' = hexE ('0' :: 'x' :: (hs ++ tail)) := by
+    simp [tokenAtE, peekChar, RuneError]
+  rw [this]
+  simp only [hexE, List.tail_cons, takeWhile_app_stop isHexDigit hs tail h ht,
+    dropWhile_app_stop isHexDigit hs tail h ht]
+
+def asciiDigits : List Char := ['0', '1', '2', '3', '4', '5', '6', '7', '8', '9']
+
+theorem asciiDigits_ok : ∀ x ∈ asciiDigits, isDigit x = true ∧ isLetter x = false := by
+  simp only [isDigit, isLetter, inRanges_list]
+  decide +kernel
+
+/-- Decimal numbers written with ASCII digits. -/
+theorem lexemeAt_asciiNum (c : Char) (ds : List Char) (hc : c ∈ asciiDigits)
+    (hds : ∀ x ∈ ds, x ∈ asciiDigits) : LexemeAt okNum (c :: ds) [(.INT, String.ofList (c :: ds))] :=
+  lexemeAt_num c ds (asciiDigits_ok c hc).1 (asciiDigits_ok c hc).2 fun x hx =>
+    (asciiDigits_ok x (hds x hx)).1
+
+/-- Every continuation that is empty or starts with a whitespace character, `#` or `/` is
+admissible for all the classes above: separators are always allowed. -/
+theorem ok_of_sepStart (tail : List Char)
+    (h : ∀ d ∈ tail.head?, isWs d = true ∨ d = '#' ∨ d = '/') :
+    okAny tail ∧ okNoEq tail ∧ okIdent tail ∧ okNum tail ∧ okHex tail := by
+  have key : ∀ d ∈ tail.head?, d ∈ [' ', '\t', '\n', '\r', '#', '/'] := by
+    intro d hd
+    rcases h d hd with h | h | h
+    · simp only [isWs, Bool.or_eq_true, beq_iff_eq] at h
+      rcases h with ((h | h) | h) | h <;> subst h <;> decide
+    · subst h; decide
+    · subst h; decide
+  have hsp : ∀ d ∈ [' ', '\t', '\n', '\r', '#', '/'], d ∈ special.erase 'x' ∧ d ∈ special.erase '0' ∧
+      d ≠ '=' ∧ d ≠ '"' ∧ d ≠ 'x' ∧ isHexDigit d = false := by decide
+  refine ⟨trivial, fun d hd => (hsp d (key d hd)).2.2.1, fun d hd => ⟨?_, (hsp d (key d hd)).2.2.2.1⟩,
+    fun d hd => ⟨special_not_digit d (hsp d (key d hd)).2.1, (hsp d (key d hd)).2.2.2.2.1⟩,
+    fun d hd => (hsp d (key d hd)).2.2.2.2.2⟩
+  simp only [identP, special_not_letter' d (hsp d (key d hd)).1,
+    special_not_digit d (hsp d (key d hd)).2.1, Bool.or_self]
+
+/-- **Raw strings** `` `…` `` (body without back-quote and NUL): no separator needed after them; the
+literal is the body with trailing Unicode white space removed. -/
+theorem lexemeAt_raw (bodyCs : List Char) (h : ∀ x ∈ bodyCs, x ≠ '`' ∧ x ≠ NUL) :
+    LexemeAt okAny ('`' :: (bodyCs ++ ['`'])) [(.RAWSTRING, String.ofList (trimRightSpace bodyCs))] := by
+  refine ⟨by simp, fun tail _ => ⟨tail, ?_, .done _⟩⟩
+  have hb : ∀ x ∈ bodyCs, rawP x = true := by
+    intro x hx
+    simp [rawP, (h x hx).1, (h x hx).2]
+  have hq : ∀ x ∈ ('`' :: tail).head?, rawP x = false := by
+    intro x hx
+    simp at hx
+    subst hx
+    decide
+  have e : ('`' :: (bodyCs ++ ['`'])) ++ tail = '`' :: (bodyCs ++ '`' :: tail) := by simp
+  rw [e, nextE_stop _ _ (by decide) rfl]
+  have : tokenAtE ('`' :: (bodyCs ++ '`' :: tail)) '`' = rawE ('`' :: (bodyCs ++ '`' :: tail)) := by
+    simp [tokenAtE]
+  rw [this]
+  simp only [rawE, List.tail_cons, takeWhile_app_stop rawP bodyCs _ hb hq,
+    dropWhile_app_stop rawP bodyCs _ hb hq]
+
+/-- **Negative numbers** `-` followed by digits. -/
+theorem lexemeAt_neg (c : Char) (ds : List Char) (hd : isDigit c = true)
+    (hds : ∀ x ∈ ds, isDigit x = true) :
+    LexemeAt okNum ('-' :: c :: ds) [(.INT, String.ofList ('-' :: c :: ds))] := by
+  refine ⟨by simp, fun tail ht => ⟨tail, ?_, .done _⟩⟩
+  have hall : ∀ x ∈ c :: ds, isDigit x = true := by
+    intro x hx
+    rcases List.mem_cons.1 hx with rfl | hx
+    · exact hd
+    · exact hds x hx
+  have h1 : ∀ x ∈ tail.head?, isDigit x = false := fun x hx => (ht x hx).1
+  have hre : (c == RuneError) = false := beq_false_of_ne' (digit_ne_special hd RuneError (by decide))
+  have hpk : peekChar ('-' :: c :: (ds ++ tail)) = c := by simp [peekChar, hre]
+  have hl : isLetter '-' = false := special_not_letter' '-' (by decide)
+  rw [List.cons_append, List.cons_append, nextE_stop _ _ (by decide) rfl]
+  have : tokenAtE ('-' :: c :: (ds ++ tail)) '-' = negE ('-' :: c :: (ds ++ tail)) := by
+    have hn : ('-' == NUL) = false := by decide
+    simp [tokenAtE, hpk, hl, hd, hn]
+  rw [this]
+  simp only [negE, List.tail_cons]
+  rw [← List.cons_append, takeWhile_app_stop isDigit _ tail hall h1,
+    dropWhile_app_stop isDigit _ tail hall h1]
 
 end Pory.LexLayout
